@@ -306,6 +306,22 @@ fn main() {
         sink.merge(sx);
     }
     {
+        // every known extension type with each blob shape as its content, bare and behind a first byte 0 / 1 / 2 (a status type,
+        // a name type, a mode): a length prefix of its own, a list of one, DER ...
+        let shapes = cat::content_shapes();
+        let mut k: Vec<W> = Vec::new();
+        for &t in vcommon::reference::iana::KNOWN_EXT_TYPES.iter() {
+            for sh in &shapes {
+                k.push(cat::ext_with(t, sh));
+                for first in [0u8, 1, 2] {
+                    k.push(cat::ext_with(t, &[&[first][..], &sh[..]].concat()));
+                }
+            }
+        }
+        let sx = par_run(run.threads, k.len(), |i, sink| check_single(&k[i].buf, sink));
+        sink.merge(sx);
+    }
+    {
         let k = cat::enum_lists_with_foreign_content().1;
         let sx = par_run(run.threads, k.len(), |i, sink| check_single(&k[i].buf, sink));
         sink.merge(sx);
